@@ -625,6 +625,10 @@ func (x *Exec) trCall(e *SExpr, env *TrEnv) *Term {
 	case "box":
 		v := x.trExpr(e.Args[0], env)
 		return x.box(v, nil)
+	case "owned":
+		// owned(b): the byte slice b does not share memory with data of the caller of the function under verification
+		t := x.trExpr(e.Args[0], env)
+		return Not(x.getAlias(t))
 	case "unboxRef":
 		return mk("unbox_Ref", SRef, x.trExpr(e.Args[0], env))
 	case "unboxStr":
